@@ -41,7 +41,7 @@ def gen_scenario(rng, profile=None, size=None, exclude=frozenset()):
     out += ["pq %s" % c for c in pqs]
     out += ["cond"] * nconds
     subs = []
-    if nconds and "cond-observers" not in exclude:
+    if nconds:
         for c in range(nconds):
             for _ in range(rng.randint(0, 2)):
                 k = rng.choice([k for k, n in ((0, nres), (1, len(pools)), (2, len(bufs)), (3, len(oqs))) if n])
@@ -146,26 +146,37 @@ def gen_scenario(rng, profile=None, size=None, exclude=frozenset()):
         return rng.choice(ch)
 
     if profile == "condcrowd":
-        # many waiters with flag predicates on one condition (no observers), a signaller that raises flags and signals
+        # many waiters on one condition, a signaller that raises flags and signals; in about half of the scenarios the
+        # condition also observes a resource and some waiters wait for that resource to be free, so that one release
+        # (a forwarded signal) has to wake several waiters standing behind each other
         nw = rng.randint(6, 12)
-        out = ["cond"]
+        obs = rng.random() < 0.5
+        out = ["res", "cond", "sub 0 0 0 0"] if obs else ["cond"]
+
+        def pred():
+            return "cwait 0 1 0 0" if obs and rng.random() < 0.5 else "cwait 0 0 %d 0" % rng.randrange(4)
         for p in range(nw):
-            cmds = ["cwait 0 0 %d 0" % rng.randrange(4)]
+            cmds = [pred()]
             if rng.random() < 0.3:
                 cmds = ["tadd 0 %d -5" % rng.randint(1, 6)] + cmds
             if rng.random() < 0.4:
-                cmds.append("cwait 0 0 %d 0" % rng.randrange(4))
+                cmds.append(pred())
             out.append("proc %d 1 %d" % (rng.randint(0, 12), len(cmds)))
             out += cmds
-        sig = []
+        sig = ["acq 0"] if obs else []
         for _ in range(rng.randint(3, 7)):
             sig.append("hold %d" % rng.randint(1, 3))
             for _ in range(rng.randint(1, 2)):
                 sig.append("flag %d %d" % (rng.randrange(4), rng.choice([0, 1, 1])))
-            sig.append("csig 0")
+            if obs and rng.random() < 0.6:
+                sig += ["rel 0"] + (["acq 0"] if rng.random() < 0.6 else [])
+            else:
+                sig.append("csig 0")
             if rng.random() < 0.2:
                 sig.append("ccancel 0 %d" % rng.randrange(nw))
         sig += ["flag 0 1", "flag 1 1", "flag 2 1", "flag 3 1", "hold 1", "csig 0"]
+        if obs:
+            sig += ["rel 0"]
         out.append("proc %d 1 %d" % (rng.randint(0, 12), len(sig)))
         out += sig
         return out, {"profile": profile, "procs": nw + 1, "lines": len(out)}
@@ -269,24 +280,41 @@ def gen_scenario(rng, profile=None, size=None, exclude=frozenset()):
             out += ["proc %d 1 2" % rng.randint(0, 3), "waite 9", "hold 1"]
         return out, {"profile": profile, "procs": nw + 1, "lines": len(out)}
     if profile == "condfwd":
-        # a condition observing a resource / buffer / queue guard; state changes reach its waiters only through forwarded signals
-        out = ["res", "buf 5", "oq 3", "cond"]
-        kind, idx, which = rng.choice([(0, 0, 0), (0, 0, 0), (2, 0, 0), (2, 0, 1), (3, 0, 0), (3, 0, 1)])
+        # a condition observing a resource / pool / buffer / queue guard; state changes reach its waiters only through forwarded
+        # signals: several condition waiters, most with a predicate on the observed object (so that one release / put / get
+        # makes the predicates of several waiters, standing behind each other in the condition's list, true at once)
+        out = ["res", "pool 4", "buf 5", "oq 3", "cond"]
+        kind, idx, which = rng.choice([(0, 0, 0), (0, 0, 0), (1, 0, 0), (2, 0, 0), (2, 0, 1), (3, 0, 0), (3, 0, 1)])
         out.append("sub 0 %d %d %d" % (kind, idx, which))
+        if rng.random() < 0.3:
+            out.append("sub 0 %d %d %d" % rng.choice([(0, 0, 0), (1, 0, 0), (2, 0, 0), (3, 0, 0)]))
+        on_obj = {0: [(1, 0, 0)], 1: [(2, 0, 1), (2, 0, 2), (2, 0, 4)], 2: [(3, 0, 1), (3, 0, 2)], 3: [(4, 0, 1), (4, 0, 2)]}[kind]
         nproc = rng.randint(2, 5)
         procs = []
-        # one condition waiter with a flag predicate (so that the front-only evaluation cannot matter), maybe a second one
-        procs.append((rng.randint(0, 5), ["hold %d" % rng.randint(0, 1), "cwait 0 0 %d 0" % rng.randrange(2), "hold 1"]))
-        if rng.random() < 0.3:
-            procs.append((rng.randint(0, 5), ["hold 1", "cwait 0 %d 0 %d" % rng.choice([(1, 0), (3, 1), (4, 1)]), "hold 1"]))
+        for _ in range(rng.randint(1, 5)):
+            r = rng.random()
+            if r < 0.6:
+                pr_ = rng.choice(on_obj)
+            elif r < 0.85:
+                pr_ = (0, rng.randrange(2), 0)
+            else:
+                pr_ = rng.choice([(1, 0, 0), (2, 0, 2), (3, 0, 1), (4, 0, 1)])
+            cmds = ["hold %d" % rng.randint(0, 1), "cwait 0 %d %d %d" % pr_, "hold 1"]
+            if rng.random() < 0.2:
+                cmds = ["tadd 0 %d -5" % rng.randint(1, 4)] + cmds
+            if rng.random() < 0.3:
+                cmds += ["cwait 0 %d %d %d" % rng.choice(on_obj)]
+            procs.append((rng.randint(0, 5), cmds))
         # the actor: changes state so that the observed guard is signalled, after raising the flag
-        actor = ["acq 0", "hold %d" % rng.randint(1, 3), "flag %d 1" % rng.randrange(2), "flag %d 1" % rng.randrange(2)]
-        actor += [rng.choice(["rel 0", "bput 0 2", "oput 0 7", "bget 0 1", "oget 0"])]
-        actor += ["hold 2", "rel 0", "bput 0 1", "oput 0 1"]
+        actor = ["acq 0", "pacq 0 3", "hold %d" % rng.randint(1, 3), "flag %d 1" % rng.randrange(2), "flag %d 1" % rng.randrange(2)]
+        actor += [rng.choice(["rel 0", "bput 0 2", "oput 0 7", "bget 0 1", "oget 0", "prel 0 2"])]
+        actor += ["hold 2", "rel 0", "prel 0 1", "bput 0 1", "oput 0 1"]
+        if rng.random() < 0.5:
+            actor += ["hold 1", "oput 0 2", "bput 0 3", "hold 1", "oget 0", "bget 0 2", "prel 0 3"]
         procs.append((rng.randint(0, 5), actor))
         # direct waiters on the observed object, so that the guard's own front waiter is served by the same signal
         for _ in range(nproc - 1):
-            procs.append((rng.randint(0, 5), ["hold %d" % rng.randint(0, 2), rng.choice(["acq 0", "bget 0 1", "oget 0", "bput 0 9", "acq 0"]),
+            procs.append((rng.randint(0, 5), ["hold %d" % rng.randint(0, 2), rng.choice(["acq 0", "bget 0 1", "oget 0", "bput 0 9", "acq 0", "pacq 0 2"]),
                                               "hold 1", "rel 0"]))
         rng.shuffle(procs)
         for pr, cmds in procs:
